@@ -71,9 +71,11 @@ def build_image(arch, e_lfanew, nsec, magic, sig, cstamp, secs, export_rva, expo
     return img, dict(size_of_headers=size_of_headers, ptrs=ptrs, total=size_of_headers + RAW * nsec)
 
 
-def h_artifacts(arch, e_lfanew, nsec, p, k, a, vs_max):
+def h_artifacts(arch, e_lfanew, nsec, p, k, a, vs_max, pad=0):
+    """pad: concrete 0x90 filler in front of the p symbolic prepend bytes (long prepends within the 1024-byte search range)"""
     def body(ctx):
-        prepend = sym_bytes("prepend", p)
+        prepend = SymBytes([0x90] * pad + sym_bytes("prepend", p).cells)
+        p_total = pad + p
         magic = sym_bytes("magic_mz", k)
         sig = sym_bytes("magic_pe", 4)
         cstamp = sym_bytes("compile_stamp", 4)
@@ -102,7 +104,7 @@ def h_artifacts(arch, e_lfanew, nsec, p, k, a, vs_max):
         mz = call(pe.find_mz_offset, mk())
         want_mz = definition_mz(ctx, data)
         ctx.prove(deep_eq(mz, want_mz), "find_mz_offset == smallest offset with 0 < e_lfanew < 1024 and Machine in {x86, x64} (got %r want %r)" % (mz, want_mz))
-        if want_mz != p:
+        if want_mz != p_total:
             raise PathAbort()  # a decoy header formed by the prepend bytes: outside the scenario 'image at offset p'
         ctx.prove(call(pe.find_architecture, mk()) == arch, "architecture == Machine of the image")
         cs, es = call(pe.find_compile_stamps, mk())
@@ -128,7 +130,7 @@ def h_artifacts(arch, e_lfanew, nsec, p, k, a, vs_max):
             want_mp.pop()
         ctx.prove(mp is not None and deep_eq(as_bytes(mp), SymBytes(want_mp)), "magic_pe == PE signature bytes without trailing NULs")
         pre, app = call(pe.find_stage_prepend_append, mk())
-        if p:
+        if p_total:
             ctx.prove(pre is not None and deep_eq(as_bytes(pre), prepend), "stage prepend == bytes in front of the image")
         else:
             ctx.prove(pre is None, "no prepend -> None")
@@ -136,6 +138,29 @@ def h_artifacts(arch, e_lfanew, nsec, p, k, a, vs_max):
             ctx.prove(app is not None and deep_eq(as_bytes(app), append), "stage append == bytes behind headers + raw sections")
         else:
             ctx.prove(app is None, "no append -> None")
+    return body
+
+
+def h_from_bytes(arch):
+    """BeaconConfig.from_bytes on a stage = prepend + image whose section holds an obfuscated configuration block: the reported
+    architecture, compile stamp and export stamp are the image's, for EVERY 32-bit stamp (0 included)"""
+    def body(ctx):
+        from harness.c01 import small_block
+        cstamp = sym_bytes("compile_stamp", 4)
+        estamp = sym_bytes("export_stamp", 4)
+        blk = small_block(0x2E, [0, 8], extra=4)
+        exportdir = [0, 0, 0, 0] + estamp.cells + [0] * 32
+        raw = blk + [0x33] * (40 - len(blk)) + exportdir
+        raw = raw + [0x44] * (RAW - len(raw))
+        img, lay = build_image(arch, 64, 1, b"MZAR", b"PE\0\0", cstamp.cells, [(0x2000, 0x60)], 0x2000 + 40, [raw])
+        data = V.unwrap(SymBytes([0x90, 0x90, 0x90] + img))
+        kind, r = outcome(BeaconConfig.from_bytes, data if not is_native() else V.to_native(SymBytes(seq_cells(data, SymBytes))))
+        ctx.prove(kind == "ok", "stage with an embedded configuration is extracted (%s)" % (r if kind == "exc" else ""))
+        if kind != "ok":
+            return
+        ctx.prove(r.architecture == arch, "architecture == Machine of the image (got %r)" % (r.architecture,))
+        ctx.prove(deep_eq(r.pe_compile_stamp, m_int_from_bytes(cstamp, "little")), "pe_compile_stamp == TimeDateStamp of the file header")
+        ctx.prove(deep_eq(r.pe_export_stamp, m_int_from_bytes(estamp, "little")), "pe_export_stamp == TimeDateStamp of the export directory")
     return body
 
 
@@ -277,6 +302,12 @@ def instances(tier):
                                         h_artifacts(arch, e, nsec, p, k, a, 24 if q else 40),
                                         dict(kind="artifacts", arch=arch, e_lfanew=e, sections=nsec, prepend=p, magic_len=k, append=a,
                                              cost=30 ** nsec), max_loop=2000))
+    # long prepends: image offset + e_lfanew beyond 1024 while each stays below it
+    for arch, pad, e in (("x86", 900, 200), ("x64", 1000, 72)) if q else (("x86", 900, 200), ("x64", 1000, 72), ("x86", 400, 1000), ("x64", 1021, 64)):
+        out.append(Instance("artifacts %s long prepend=%d+2 e_lfanew=%d" % (arch, pad, e), h_artifacts(arch, e, 0, 2, 3, 1, 24, pad=pad),
+                            dict(kind="artifacts", arch=arch, e_lfanew=e, sections=0, prepend=pad + 2, cost=10 ** 5), max_loop=3000, split=8))
+    for arch in ("x86", "x64"):
+        out.append(Instance("extraction reports the image's artifacts %s" % arch, h_from_bytes(arch), dict(kind="from_bytes", arch=arch, cost=10 ** 5), max_loop=20000, split=8))
     for hs in ("stamp", "zero", "none"):
         out.append(Instance("version precedence export stamp=%s" % hs, h_version(hs), dict(kind="version", export_stamp=hs), split=8))
     for w in ("stamp", "index"):
